@@ -211,7 +211,7 @@ func GenerateConsts(t *rapid.T, use func(string) bool) *Program {
 		// uses
 		nu := g.intRange(4, 10, "nuse")
 		for u := 0; u < nu; u++ {
-			switch g.intRange(0, 13, "use") {
+			switch g.intRange(0, 15, "use") {
 			case 0, 1: // print expressions (all-constant ones are folded at compile time)
 				ty := rapid.SampledFrom(types).Draw(t, "ptype")
 				e1, _ := c.expr(ty, 2)
@@ -381,6 +381,63 @@ func GenerateConsts(t *rapid.T, use func(string) bool) *Program {
 					c.print(&Index{T: et, X: mk(dat), I: ix})
 				}
 				g.use("consts.index_through_cast")
+			case 14, 15: // a reassigned `let` where a compiler may evaluate early: the value it has at that point counts, not a later one
+				if !g.use("consts.let_used_then_reassigned") {
+					continue
+				}
+				kind := g.intRange(0, 3, "stalekind")
+				if kind == 1 && !et.Equal(i32) {
+					kind = 0 // an array literal outside a typed context takes the default literal type
+				}
+				var v1, v2 int64
+				switch kind {
+				case 0, 1:
+					v1 = int64(g.intRange(0, n-1, "stale_v1"))
+					v2 = int64(g.intRange(0, n-1, "stale_v2"))
+					if kind == 0 && g.chance(3, "stale_neg") {
+						v2 = -int64(g.intRange(1, n, "stale_v2neg"))
+					}
+				case 2:
+					v1 = int64(g.intRange(1, 3, "stale_step1"))
+					v2 = -int64(g.intRange(1, 3, "stale_step2"))
+					if g.chance(2, "stale_stepswap") {
+						v1, v2 = v2, v1
+					}
+				case 3:
+					v1 = int64(g.intRange(-2, 5, "stale_pat1"))
+					v2 = v1 + int64(g.intRange(1, 2, "stale_patd"))
+				}
+				m := c.declare(2, i32, &Lit{T: i32, I: big.NewInt(v1)}, big.NewInt(v1), "m")
+				mv := &Var{T: i32, Name: m.name}
+				useAt := func(v int64) {
+					switch kind {
+					case 0:
+						c.print(&Index{T: et, X: &Var{T: fat, Name: "fa"}, I: mv})
+					case 1:
+						c.print(&Index{T: et, X: mk(dat), I: mv}, &Index{T: et, X: &Var{T: dat, Name: "da"}, I: mv})
+					case 2:
+						acc := g.fresh("acc")
+						iv := g.fresh("i")
+						c.body = append(c.body, &Let{Name: acc, T: i32, Init: &Lit{T: i32, I: big.NewInt(0)}})
+						lo, hi := int64(g.intRange(-2, 2, "stale_lo")), int64(g.intRange(3, 8, "stale_hi"))
+						if v < 0 {
+							lo, hi = hi, lo
+						}
+						loop := &ForRange{Var: iv, T: i32, Lo: &Lit{T: i32, I: big.NewInt(lo)}, Hi: &Lit{T: i32, I: big.NewInt(hi)}, Inclusive: g.chance(2, "stale_incl"), Step: mv}
+						loop.Body = []Stmt{&Assign{LHS: &Var{T: i32, Name: acc}, Op: "=", RHS: &Bin{T: i32, Op: "+", L: &Bin{T: i32, Op: "*", L: &Var{T: i32, Name: acc}, R: &Lit{T: i32, I: big.NewInt(3)}}, R: &Var{T: i32, Name: iv}}}}
+						c.body = append(c.body, loop)
+						c.print(&Var{T: i32, Name: acc})
+					case 3:
+						x := c.declare(1, i32, &Lit{T: i32, I: big.NewInt(v1)}, big.NewInt(v1), "x")
+						c.body = append(c.body, &Match{X: &Var{T: i32, Name: x.name}, HasDef: true,
+							Arms:    []MatchArm{{Pat: mv, Body: []Stmt{&Print{Args: []Expr{&Lit{T: TStr, S: "same"}}}}}},
+							Default: []Stmt{&Print{Args: []Expr{&Lit{T: TStr, S: "different"}}}}})
+					}
+				}
+				useAt(v1)
+				c.body = append(c.body, &Assign{LHS: mv, Op: "=", RHS: &Lit{T: i32, I: big.NewInt(v2)}})
+				m.v = big.NewInt(v2)
+				useAt(v2)
 			case 11: // new declaration in the middle (initialiser over earlier names)
 				ty := rapid.SampledFrom(types).Draw(t, "dtype2")
 				e, v := c.expr(ty, 2)
